@@ -251,6 +251,14 @@ class Expander:
                 extra_attrs.append(c["text"][5:])
         for a in extra_attrs:
             self.out.add(a + "\n", ("tmpl", node["line"]))
+        fields = None
+        for c in node["children"]:
+            if c["text"].startswith("fields "):
+                fields = [x.strip() for x in c["text"][7:].split(",") if x.strip()]
+        if fields is not None:
+            self.do_struct_projection(rel, src, it, fields, override)
+            self.out.add("\n\n", ("tmpl", node["line"]))
+            return
         if override is not None:
             # emit attrs by hand
             pos = it.start
@@ -264,6 +272,53 @@ class Expander:
         else:
             self.emit_repo(rel, src, it.start, it.end)
         self.out.add("\n\n", ("tmpl", node["line"]))
+
+    def do_struct_projection(self, rel, src, it, fields, override):
+        """Emit a struct keeping only the named fields (each verbatim). Logged as a rewrite."""
+        toks = it.toks
+        if it.ti_open is None:
+            raise LostAnchor("%s: struct %s has no named fields" % (rel, it.name))
+        for at, s, e in it.attrs:
+            new, log = filter_attr(at, override if rlex.norm(at).startswith("#[derive") else None)
+            self.out.add(new + "\n", ("rewrite", rel, s))
+        self.emit_repo(rel, src, it.kw_start, toks[it.ti_open].end)
+        self.out.add("\n", ("tmpl", it.name))
+        # split fields at depth-0 commas
+        k = it.ti_open + 1
+        start = k
+        found = set()
+        dropped = []
+        while k <= it.ti_end:
+            t = toks[k]
+            if k == it.ti_end or (t.kind == "punct" and t.text == ","):
+                if k > start:
+                    # field tokens start..k-1 ; name = ident before ':' at depth 0 (skip attrs / pub(...))
+                    j = start
+                    while toks[j].text == "#":
+                        j = rlex.match_close(toks, j + 1) + 1
+                    if toks[j].text == "pub":
+                        j += 1
+                        if toks[j].text == "(":
+                            j = rlex.match_close(toks, j) + 1
+                    name = toks[j].text
+                    if name in fields:
+                        found.add(name)
+                        self.out.add("    ", ("tmpl", it.name))
+                        self.emit_repo(rel, src, toks[start].start, toks[k - 1].end)
+                        self.out.add(",\n", ("tmpl", it.name))
+                    else:
+                        dropped.append(name)
+                start = k + 1
+            elif t.kind == "punct" and t.text in rlex.OPEN:
+                k = rlex.match_close(toks, k)
+            elif t.kind == "punct" and t.text == "<":
+                k = rlex.skip_angles(toks, k) - 1
+            k += 1
+        missing = set(fields) - found
+        if missing:
+            raise LostAnchor("%s: struct %s lost field(s) %s" % (rel, it.name, ",".join(sorted(missing))))
+        self.out.add("}", ("repo", rel, toks[it.ti_end].start))
+        self.rewrites.append("%s: struct %s projected to fields {%s}; dropped {%s}" % (rel, it.name, ",".join(fields), ",".join(dropped)))
 
     def do_fn(self, rel, src, it, node, container):
         """Emit fn item `it` with contracts from node (node may be None => verbatim)."""
@@ -411,6 +466,7 @@ class Expander:
             if not keep_all and not (names & set(wanted)) and len(cands) > 1:
                 continue
             cname = rlex.norm(it.header)
+            notsel = []
             for a in cattrs:
                 self.out.add(a + "\n", ("tmpl", cname, "attr"))
             self._container_external = any("external" in a for a in cattrs)
@@ -439,13 +495,15 @@ class Expander:
                         self.out.add("    ", ("tmpl", cname))
                         self.do_fn(rel, src, k, None, cname)
                     else:
-                        self.skipped.append("%s::%s (%s): not selected for this unit" % (cname, k.name, rel))
+                        notsel.append(k.name)
                 elif k.kind in ("type", "const") and k.name not in drop:
                     self.out.add("    ", ("tmpl", cname))
                     self.emit_repo(rel, src, k.start, k.end)
                     self.out.add("\n", ("tmpl", cname))
             self.out.add("}\n\n", ("repo", rel, it.toks[it.ti_end].start))
             self._container_external = False
+            if notsel:
+                self.skipped.append("%s (%s): %d other fns of this block not extracted in this unit" % (cname, rel, len(notsel)))
         missing = set(wanted) - found
         if missing:
             raise LostAnchor("%s: `%s` has no fn %s" % (rel, sel, ",".join(sorted(missing))))
@@ -495,6 +553,12 @@ class Expander:
                 root = parse_directives(block, i + 1)
                 self.do_extract(rel, root)
                 i = j + 1
+                continue
+            if s.startswith("//@include"):
+                inc = os.path.join(os.path.dirname(self.tmpl_path), s.split(None, 1)[1].strip())
+                for k, l2 in enumerate(open(inc).read().split("\n")):
+                    self.out.add(l2 + "\n", ("tmpl", "%s:%d" % (os.path.basename(inc), k + 1)))
+                i += 1
                 continue
             if s == "//@canary":
                 if self.vac:
